@@ -423,7 +423,8 @@ def make_cases(rnd, tier, progs):
         else:
             cases.append(dict(p=pi, k=0, kind='none', mode='l'))
             for k in ks:
-                for kind in KINDS[1:]:
+                # generator program: every K, the kinds taken in turn (keeps the quick tier short)
+                for kind in ([KINDS[1 + k % 3]] if prog['gen'] else KINDS[1:]):
                     cases.append(dict(p=pi, k=k, kind=kind, mode='l'))
             for mode in pmodes[1:]:
                 cases.append(dict(p=pi, k=0, kind='none', mode=mode))
